@@ -144,3 +144,27 @@ Proof.
   destruct (receive_prog_agrees (concat cs)) as [A1 A2]. fold f in A1, A2.
   split; [now rewrite H1|]. intros b rest E. rewrite H2. now apply A2 with b.
 Qed.
+
+(* the read loop of the server over a chunked transport: messages until EOF or error *)
+Fixpoint receive_all_chunks (fuel : nat) (cs : list bytes) : list bytes * pres :=
+  match fuel with
+  | O => ([], PHang)
+  | S f =>
+    match run_chunks (receive_prog (S (List.length (snd (readline (concat cs)))))) cs with
+    | (PMsg b, cs') => let (l, e) := receive_all_chunks f cs' in (b :: l, e)
+    | (e, _) => ([], e)
+    end
+  end.
+
+Lemma receive_all_chunked : forall fuel cs,
+  receive_all_chunks fuel cs =
+  (fst (receive_all fuel (concat cs)), strip_rest (snd (receive_all fuel (concat cs)))).
+Proof.
+  induction fuel as [|f IH]; intro cs; cbn [receive_all_chunks receive_all]; [reflexivity|].
+  destruct (receive_chunked cs) as [H1 H2].
+  destruct (run_chunks (receive_prog (S (List.length (snd (readline (concat cs)))))) cs) as [r cs'].
+  cbn [fst snd] in H1, H2. subst r.
+  destruct (receive (concat cs)) as [b rest| | |]; cbn [strip_rest fst snd]; try reflexivity.
+  rewrite (IH cs'), (H2 b rest eq_refl).
+  destruct (receive_all f rest) as [l e]. reflexivity.
+Qed.
